@@ -93,8 +93,7 @@ def check_property(prop, tier, seed, run_symbolic, lock, verbose=False, jobs=Non
         o.setdefault('task', 'extras')
     obligations += [o for o in extra_obs if prop in o['props']]
     errors = [(r['key'], e) for r in results for e in r['errors']] + [('extras', e) for e in extra_info.get('errors', [])]
-    errors += [('contracts', 'function under contract is no longer in the source: %s' % k)
-               for k in sorted(set(getattr(eng, 'missing_functions', [])))]
+    gone = sorted(set(getattr(eng, 'missing_functions', [])))
     undecided = [(r['key'], u) for r in results for u in r['undecided']] + \
                 [('extras', u) for u in extra_info.get('undecided', [])]
 
@@ -123,8 +122,13 @@ def check_property(prop, tier, seed, run_symbolic, lock, verbose=False, jobs=Non
     missing = []
     if lock is not None:
         have = {lock_key(n) for n in by_name}
+        gone_quals = [k.split(':', 1)[1] for k in gone]
         for n in lock['props'].get(prop, []):
             if lock_key(n) not in have:
+                # the clauses of a helper that no longer exists (inlined into its callers, which are still checked
+                # against their own specifications) go with it
+                if any((':%s:' % q) in n or n.split(':')[1:2] == [q] for q in gone_quals):
+                    continue
                 missing.append(n)
     locked = {lock_key(n) for n in (lock or {}).get('props', {}).get(prop, [])}
     new_names = sorted(n for n in by_name if lock is not None and lock_key(n) not in locked)
@@ -189,11 +193,15 @@ def check_property(prop, tier, seed, run_symbolic, lock, verbose=False, jobs=Non
         out.append('  obligation %s refuted%s' % (n, '' if rp['reproduced'] else ' (verifier counter-model did not replay natively; obligation and solver output are in the replay file)'))
     if violations:
         exit_code = 1
-    elif errors or not canary_ok or missing or cvc5['disagree']:
+    elif errors or not canary_ok or cvc5['disagree']:
         exit_code = 3
     elif undecided or unknown_names:
-        exit_code = 2
+        exit_code = 2          # (the clauses of an undecided function are missing from the run as a matter of course)
+    elif missing:
+        exit_code = 3
 
+    for k in gone:
+        out.append('NOTE function under contract is no longer in the source (its clauses go with it; callers are checked against their own specifications): %s' % k)
     for dsg in cvc5['disagree'][:5]:
         out.append('CHECKER-ERROR back ends disagree: %s' % dsg)
     for k, e in errors[:5]:
